@@ -1,1 +1,2 @@
 pub mod sm3;
+pub mod sm4;
